@@ -12,6 +12,7 @@ mod c11;
 mod c13;
 mod c14;
 mod c15;
+mod c16;
 mod c19;
 mod common;
 mod conv;
@@ -21,7 +22,7 @@ mod walk;
 static ALLOC: verif_model::alloc::Shim = verif_model::alloc::Shim;
 
 fn properties() -> Vec<run::Property> {
-    vec![c01::property(), c02::property(), c04::property(), c06::property(), c09::property(), c11::property_c11(), c11::property_c12(), c13::property(), c14::property(), c15::property(), c19::property()]
+    vec![c01::property(), c02::property(), c04::property(), c06::property(), c09::property(), c11::property_c11(), c11::property_c12(), c13::property(), c14::property(), c15::property(), c16::property(), c19::property()]
 }
 
 fn main() {
